@@ -183,3 +183,9 @@ func Tier() string {
 	}
 	return "quick"
 }
+
+// Str returns an arbitrary string (SMT string variable in the engine).
+func Str(name string) string {
+	v, _ := next(name)
+	return v
+}
